@@ -16,6 +16,57 @@ def replay_custom(prop, witness, ctx):
 
 CUSTOM_REPLAY = {}
 
+import os, subprocess, json as _json
+
+
+def race_step(ops_by_tier):
+    """Extra step: run some ops in-process in a harness built with the Go race detector."""
+    def step(ctx):
+        tier = ctx["tier"]
+        ops = ops_by_tier.get(tier) or ops_by_tier.get("quick") or []
+        if not ops:
+            return {}
+        exe = os.path.join(ctx["work"], "bin", "mlharness-race")
+        r = ctx["run"](["go", "build", "-race", "-tags", "verif", "-o", exe, "./cmd/mlharness"], cwd=ctx["harness"], env=ctx["goenv"])
+        if r.returncode != 0:
+            return dict(problems=[dict(kind="race-build", detail=r.stdout[-2000:])])
+        viol, n = [], 0
+        env = dict(os.environ, GORACE="halt_on_error=1 exitcode=66")
+        for op in ops:
+            op = op.replace("$SEED", str(ctx["seed"]))
+            n += 1
+            try:
+                p = subprocess.run([exe, "-evalop", op, "-out", ctx["work"], "child"], env=env, stdout=subprocess.PIPE,
+                                   stderr=subprocess.STDOUT, text=True, timeout=600)
+            except subprocess.TimeoutExpired:
+                viol.append(dict(custom="race", op=op, impl="hang under the race detector", spec="completes"))
+                continue
+            out = p.stdout
+            if "DATA RACE" in out or p.returncode == 66:
+                where = [l.strip() for l in out.splitlines() if ".go:" in l and "/repo/" in l][:4]
+                viol.append(dict(custom="race", op=op, impl="DATA RACE " + " | ".join(where), spec="no data race"))
+            elif p.returncode != 0:
+                viol.append(dict(custom="race", op=op, impl="crash: " + out[-300:], spec="no crash"))
+            else:
+                last = out.strip().splitlines()[-1] if out.strip() else ""
+                if last.startswith(("MIXTURE", "USED", "REPLACED", "MISMATCH", "VIOLATION")):
+                    viol.append(dict(custom="race", op=op, impl=last[:300], spec="ok"))
+        return dict(ops=n, distinct=n, stats={"race-detector-runs": n}, samples=["race: " + o for o in ops[:2]], violations=viol)
+    return step
+
+
+def _replay_race(witness, ctx):
+    exe = os.path.join(ctx["work"], "bin", "mlharness-race")
+    r = ctx["run"](["go", "build", "-race", "-tags", "verif", "-o", exe, "./cmd/mlharness"], cwd=ctx["harness"], env=ctx["goenv"])
+    if r.returncode != 0:
+        print(r.stdout[-1000:])
+        return 1
+    env = dict(os.environ, GORACE="halt_on_error=1 exitcode=66")
+    p = subprocess.run([exe, "-evalop", witness["op"], "-out", ctx["work"], "child"], env=env, stdout=subprocess.PIPE, stderr=subprocess.STDOUT, text=True, timeout=900)
+    bad = "DATA RACE" in p.stdout or p.returncode != 0
+    print(("reproduced: " if bad else "not reproduced: ") + p.stdout[-400:])
+    return 1 if bad else 0
+
 PROPS["C09"] = dict(
     level_text="Lean theorems over the transcription of score.go: Less is exactly the order of an Int rank embedding of the documented chain "
                "(hence irreflexive, transitive, total), Negate is an involution and order-reversing, IncrementMateDistance is strictly monotone, "
@@ -379,3 +430,21 @@ PROPS["C20"] = dict(
     partial=["historical evaluators and filters are not modelled in Lean: exploration only"],
     modelled=[],
 )
+
+
+PROPS["C17"]["extra"] = [race_step(dict(
+    quick=["ttstress 65536 4 3 2 20000 $SEED", "ttstress 1024 5 2 4 20000 $SEED"],
+    thorough=["ttstress 65536 4 3 2 200000 $SEED", "ttstress 1024 6 4 4 200000 $SEED", "ttstress 64 8 4 2 200000 $SEED", "ttstress 4096 6 3 200 200000 $SEED"]))]
+PROPS["C16"]["extra"] = [race_step(dict(
+    quick=[],
+    thorough=["uci plain 0 ; gate 200 ;; > position startpos ;; > go depth 4 ;; wait-parked ;; slow 200 ;; > position startpos moves e2e4 ;; > go depth 2 ;; sleep 20 ;; release ;; wait-bestmove 20000 ;; quiet 1500 ;; sync",
+              "uci morlock 0 ; slow 50 ;; > position startpos ;; > go infinite ;; sleep 200 ;; > stop ;; wait-bestmove 20000 ;; > position startpos moves e2e4 ;; > go depth 3 ;; wait-bestmove 20000 ;; > quit ;; wait-closed",
+              "uci sargon 0 ; slow 50 ;; > position startpos moves e2e4 e7e5 ;; > go depth 2 ;; sleep 30 ;; > go depth 1 ;; wait-bestmove 30000 ;; close ;; wait-closed"]))]
+PROPS["C18"]["extra"] = [race_step(dict(
+    quick=[],
+    thorough=["isolate sargon 150 1 rnbqkbnr/pppppppp/8/8/8/8/PPPPPPPP/RNBQKBNR w KQkq - 0 1 ; m:e2e4 m:e7e5 ; g1f3",
+              "isolate turochamp 200 0 r3k2r/p1ppqpb1/bn2pnp1/3PN3/1p2P3/2N2Q1p/PPPBBPPP/R3K2R w KQkq - 0 1 ;  ; e1g1",
+              "det sargon 2 rnbqkbnr/pppppppp/8/8/8/8/PPPPPPPP/RNBQKBNR w KQkq - 0 1 ; m:d2d4 m:d7d5"]))]
+CUSTOM_REPLAY["C17"] = _replay_race
+CUSTOM_REPLAY["C16"] = _replay_race
+CUSTOM_REPLAY["C18"] = _replay_race
